@@ -39,6 +39,7 @@ type result struct {
 	Nontrivial  int                    `json:"distinct_nontrivial"`
 	Rule        string                 `json:"rule"`
 	Floor       int64                  `json:"floor"`
+	Required    map[string]int64       `json:"required_counters"`
 	Exhaustive  []string               `json:"exhaustive_subspaces"`
 	Violations  []*violation           `json:"violations"`
 	Counters    map[string]int64       `json:"counters"`
@@ -358,6 +359,11 @@ func main() {
 		} else if res.Nontrivial < 2 {
 			inconclusive = "fewer than 2 distinct non-trivial cases observed"
 		}
+		for name, min := range res.Required {
+			if res.Counters[name] < min {
+				inconclusive = fmt.Sprintf("the path counted by %q was observed %d times, the run needs at least %d", name, res.Counters[name], min)
+			}
+		}
 	}
 
 	// ---- evidence
@@ -377,6 +383,7 @@ func main() {
 			"stale_known":          stale,
 			"notes":                res.Notes,
 			"floor":                res.Floor,
+			"required_counters":    res.Required,
 		}
 		for k, v := range res.Extra {
 			cov[k] = v
